@@ -19,6 +19,7 @@ REGISTRY = {
     "C01": ("vverif.checks_algebra", "check_c01"),
     "C02": ("vverif.checks_algebra", "check_c02"),
     "C13": ("vverif.checks_algebra", "check_c13"),
+    "C05": ("vverif.checks_types", "check_c05"),
     "C09": ("vverif.checks_laws", "check_c09"),
     "C10": ("vverif.checks_laws", "check_c10"),
     "C11": ("vverif.checks_laws", "check_c11"),
